@@ -10,7 +10,7 @@ from ..astutil import alpha_same, call_attr, calls_in, guard_facts, unparse, wal
 from ..cfg import CFG
 from ..dataflow import reaching_defs, resolved_text
 from ..report import Finding, Report
-from ..srcindex import AnalysisError, Index
+from ..srcindex import AnalysisError, Index, raw_funcs
 from .c15 import _str_list
 
 LOW = "xdsl/backend/riscv/lowering/convert_arith_to_riscv.py"
@@ -912,6 +912,37 @@ def check_zero_immediate(idx: Index, rep: Report) -> None:
         raise AnalysisError(f"only {n} shift-immediate operations with py_operation found")
 
 
+def check_arg_register_counters(idx: Index, rep: Report) -> None:
+    """The i-th argument of a register class goes to the i-th `a` register of that class (a0.. for integers and pointers,
+    fa0.. for floats): the running index must be kept per register *class*, the thing `a_register` is called on - on the
+    callee side (block arguments) exactly as on the caller side (a_regs_for_types)."""
+    r = rep.rule("C22.R10", "argument registers: the index handed to <register class>.a_register(...) is the running count of that same register class, incremented once per argument, in every function that assigns `a` registers", floor=2)
+    UTILS = "xdsl/backend/riscv/lowering/utils.py"
+    n = 0
+    for f in raw_funcs(idx.module(UTILS)):
+        calls = [c for c in calls_in(f.node) if call_attr(c) == "a_register" and len(c.args) == 1 and isinstance(c.func, ast.Attribute)]
+        if not calls:
+            continue
+        cfg = CFG(f.node)
+        for c in calls:
+            n += 1
+            cls_t = resolved_text(cfg, c.func.value, cfg.node_of(c))
+            it = resolved_text(cfg, c.args[0], cfg.node_of(c))
+            m = re.fullmatch(r"(\w+)\[(.+)\]", it)
+            inst = f"{f.fq}:{unparse(c)}"
+            if not m:
+                raise AnalysisError(f"{f.fq}: index `{it}` of `{unparse(c)}` is not a lookup in a counter")
+            cnt, key = m.group(1), m.group(2)
+            incs = [s_ for s_ in walk_local(f.node) if isinstance(s_, ast.AugAssign) and isinstance(s_.op, ast.Add) and isinstance(s_.target, ast.Subscript) and unparse(s_.target.value) == cnt]
+            inc_keys = {resolved_text(cfg, s_.target.slice, cfg.node_of(s_)) for s_ in incs}
+            if key != cls_t or inc_keys != {cls_t}:
+                r.fail(inst, Finding("C22.R10", f.fq, f"counter-key:{key}", f"`{unparse(c)}` takes its index from `{cnt}[{key}]` (incremented under {sorted(inc_keys)}), not from the count of the register class `{cls_t}` it is called on: two arguments of the same class whose key differs (an i32 and an index; an f32 and an f64) both get register 0 of that class, while callers number them 0 and 1", f"{UTILS}:{c.lineno}"))
+            else:
+                r.ok(inst, f"{UTILS}:{c.lineno} {cls_t}.a_register({cnt}[{cls_t}])")
+    if n < 2:
+        raise AnalysisError(f"only {n} a_register assignments found in {UTILS}")
+
+
 def check(idx: Index, rep: Report, tier: str) -> str:
     rep.run(check_tables, idx, rep)
     rep.run(check_cmp, idx, rep)
@@ -922,6 +953,7 @@ def check(idx: Index, rep: Report, tier: str) -> str:
     rep.run(check_fusion_values, idx, rep)
     rep.run(check_zero_immediate, idx, rep)
     rep.run(check_strength_reduction, idx, rep)
+    rep.run(check_arg_register_counters, idx, rep)
     return (
         "Reference-table agreement of the table-driven arith->riscv lowerings; exact abstract evaluation of the cmpi / cmpf "
         "instruction templates over the finite outcome spaces (signed x unsigned order; lt/eq/gt/unordered) against arith's "
